@@ -265,8 +265,12 @@ pub fn c13(out: &mut dyn Write, tier: &str, rng: &mut Rng, st: &mut Stats) {
         let env: BDDEnv<usize> = BDDEnv::new();
         let mut names = Names { map: HashMap::new() };
         let mut regs: Vec<B> = Vec::new();
-        let len = 50 + rng.below(if tier == "thorough" { 350 } else { 150 }) as usize;
-        let nvars = 3 + (h % 4) as u64; // 3..6 variables keep the unfoldings small
+        // every fifth history starts with a bulk of small diagrams over 40 variables (each variable, and the conjunction
+        // and disjunction of neighbours): the environment then holds well over 128 nodes while every diagram stays
+        // small — thresholds on the size of the node table, on the number of results, on ids
+        let bulk = h % 5 == 4;
+        let len = 50 + rng.below(if tier == "thorough" { 350 } else { 150 }) as usize + if bulk { 120 } else { 0 };
+        let nvars = if bulk { 40 } else { 3 + (h % 4) as u64 }; // 3..6 variables keep the unfoldings small
         let mut steps: Vec<String> = Vec::new();
         let mut force_clean = 0;
         let mut dead = false;
@@ -283,6 +287,14 @@ pub fn c13(out: &mut dyn Write, tier: &str, rng: &mut Rng, st: &mut Stats) {
                 if let Some((z, _)) = colliding(&a, 0, v) { forced = vec![("var", vec![k]), ("var", vec![v]), ("var", vec![z]), ("or", vec![1, 2]), ("not", vec![0]), ("not", vec![3]), ("and", vec![0, 3])]; }
             }
             if !forced.is_empty() { st.hit("history.hash-collision"); }
+            forced.reverse();
+        }
+        if bulk {
+            forced.clear();
+            for v in 0..40usize { forced.push(("var", vec![v])); }
+            for i in 0..39usize { forced.push(("and", vec![i, i + 1])); }
+            for i in 0..39usize { forced.push(("or", vec![i, i + 1])); }
+            st.hit("history.bulk");
             forced.reverse();
         }
         for _ in 0..len {
